@@ -38,7 +38,7 @@ type fileSpec struct {
 }
 
 type step struct {
-	Op     string    `json:"op"` // add update delete reload restore restart
+	Op     string    `json:"op"` // add update delete reload restore pending-reload restart
 	Name   string    `json:"name,omitempty"`
 	Key    int       `json:"key"`            // universe index; <0: wrong-length key (-1: one short, -2: one long, -3: other cipher's length, -4: empty)
 	File   *fileSpec `json:"file,omitempty"` // reload: edit the file to this first
@@ -94,20 +94,25 @@ func drawPlan(rt *rapid.T, maxSteps int) plan {
 	for i := 0; i < n; i++ {
 		var s step
 		switch k := rapid.IntRange(0, 99).Draw(rt, "opkind"); {
-		case k < 30:
+		case k < 28:
 			s.Op = "add"
-		case k < 55:
+		case k < 51:
 			s.Op = "update"
-		case k < 75:
+		case k < 69:
 			s.Op = "delete"
-		case k < 88:
+		case k < 81:
 			s.Op = "reload"
-		case k < 94:
+		case k < 87:
 			s.Op = "restore" // put an earlier *loaded* document back byte for byte, then reload
+		case k < 94:
+			s.Op = "pending-reload" // a change, then at once a reload of the file nobody touched
 		default:
 			s.Op = "restart"
 		}
 		switch s.Op {
+		case "pending-reload":
+			s.Name = rapid.SampledFrom(names).Draw(rt, "name")
+			s.Key = rapid.IntRange(0, nKeys-1).Draw(rt, "key")
 		case "add", "update", "delete":
 			s.Name = rapid.SampledFrom(names).Draw(rt, "name")
 			if s.Op == "add" && rapid.IntRange(0, 19).Draw(rt, "emptyname") == 0 {
@@ -441,94 +446,39 @@ func (x *executor) run() {
 				x.out.violation = x.failf("status-mismatch/delete", "%s answered %d %q (user exists in model: %v)", desc, code, body, exists)
 				return
 			}
-		case "reload", "restore":
-			var content []byte
-			restored := false
-			if s.Op == "restore" {
-				// let a pending save happen, then put back the newest earlier-loaded document whose
-				// bytes differ from what is in the file now
-				x.settle()
-				cur, err := os.ReadFile(x.path)
-				if err != nil {
-					x.out.violation = "HARNESS read: " + err.Error()
-					return
-				}
-				for j := len(x.loaded) - 1; j >= 0 && content == nil; j-- {
-					if !bytes.Equal(x.loaded[j], cur) {
-						content = x.loaded[j]
-					}
-				}
-				if content == nil {
-					class = "restore-skipped-nothing-to-restore"
-					break
-				}
-				if err := credx.WriteStore(x.path, content); err != nil {
-					x.out.violation = "HARNESS write: " + err.Error()
-					return
-				}
-				x.harnessDoc = content
-				restored = true
-				if x.savedSince {
-					x.lab("restore-loaded-content-after-save")
-					x.out.nontriv = true
-				}
-			} else if s.File != nil {
-				content = s.File.bytes(kl)
-				if err := credx.WriteStore(x.path, content); err != nil {
-					x.out.violation = "HARNESS write: " + err.Error()
-					return
-				}
-				x.harnessDoc = content
+		case "pending-reload":
+			// an acknowledged change that is still cooling down, then a reload of the file nobody touched
+			key := keyOf(kl, s.Key)
+			var code int
+			if _, exists := x.model[s.Name]; exists {
+				code, _ = x.rig.Delete(s.Name)
+				x.history = append(x.history, fmt.Sprintf("delete(%s)->%d", s.Name, code))
+				delete(x.model, s.Name)
 			} else {
-				var err error
-				if content, err = os.ReadFile(x.path); err != nil {
-					x.out.violation = "HARNESS read: " + err.Error()
-					return
-				}
-			}
-			want, _, derr := credx.DecodeStore(content, kl)
-			code, body := x.rig.Reload()
-			desc = fmt.Sprintf("reload(%q)", content)
-			if restored {
-				desc = fmt.Sprintf("restore-earlier-loaded-file+reload(%q)", content)
-			} else if s.File == nil {
-				desc = "reload(untouched file)"
-			}
-			x.history = append(x.history, fmt.Sprintf("%s->%d", desc, code))
-			switch {
-			case derr != nil && code >= 400:
-				class = "reload-rej"
-				x.lab("reload-invalid-rejected")
-			case derr == nil && accepted(code):
-				// A reload is allowed to be a no-op when the file bytes have not changed since the
-				// server last read or wrote them (an unsaved API change then stays in force).
-				unchanged := bytes.Equal(content, x.syncBytes)
-				if unchanged && x.pending && !credx.SameUsers(want, x.model) {
-					got, err := x.rig.List()
-					if err == nil && credx.SameUsers(got, x.model) {
-						class = "reload-noop-unchanged"
-						x.lab("reload-unchanged-with-pending-save")
-						break
+				if _, held := x.owner(key); held || len(key) != kl {
+					for k := 0; k < nKeys; k++ {
+						if _, h := x.owner(credx.Key(kl, k)); !h {
+							key = credx.Key(kl, k)
+						}
 					}
 				}
-				class = "reload-ok"
-				if !credx.SameUsers(want, x.model) {
-					x.lab("reload-edited")
-					x.out.nontriv = true
-					class = "reload-ok-changed"
-				}
-				x.model = want
-				x.syncBytes = content
-				x.loaded = append(x.loaded, content)
-				x.savedSince = false
-				if restored {
-					class = "restore-" + class
-				}
-			case derr != nil:
-				x.out.violation = x.failf("invalid-file-accepted", "%s answered %d but the file is invalid: %v", desc, code, derr)
+				code, _ = x.rig.Add(s.Name, key)
+				x.history = append(x.history, fmt.Sprintf("add(%s,%s)->%d", s.Name, credx.KeyName(key, kl), code))
+				x.model[s.Name] = key
+			}
+			if !accepted(code) {
+				x.out.violation = x.failf("status-mismatch/pending-change", "a valid change was answered %d", code)
 				return
-			default:
-				x.out.violation = x.failf("valid-file-refused", "%s answered %d %q but the file is a valid store", desc, code, body)
+			}
+			x.pending = true
+			var stop bool
+			if class, stop = x.doReload(step{Op: "reload"}); stop {
+				return
+			}
+			class = "pending-" + class
+		case "reload", "restore":
+			var stop bool
+			if class, stop = x.doReload(s); stop {
 				return
 			}
 		case "restart":
@@ -551,6 +501,7 @@ func (x *executor) run() {
 				return
 			}
 			class = "restart"
+			x.savedSince = false // a fresh instance's content cache is what it has just loaded
 			x.lab("restart")
 		}
 		x.out.trace = append(x.out.trace, class)
@@ -564,6 +515,105 @@ func (x *executor) run() {
 			return
 		}
 	}
+}
+
+// doReload executes a reload / restore step. stop: a violation was recorded.
+func (x *executor) doReload(s step) (class string, stop bool) {
+	kl := x.p.KeyLen
+	var desc string
+	var content []byte
+	restored := false
+	if s.Op == "restore" {
+		// let a pending save happen, then put back the newest earlier-loaded document whose
+		// bytes differ from what is in the file now
+		x.settle()
+		cur, err := os.ReadFile(x.path)
+		if err != nil {
+			x.out.violation = "HARNESS read: " + err.Error()
+			return class, true
+		}
+		for j := len(x.loaded) - 1; j >= 0 && content == nil; j-- {
+			if !bytes.Equal(x.loaded[j], cur) {
+				content = x.loaded[j]
+			}
+		}
+		if content == nil {
+			return "restore-skipped-nothing-to-restore", false
+		}
+		if err := credx.WriteStore(x.path, content); err != nil {
+			x.out.violation = "HARNESS write: " + err.Error()
+			return class, true
+		}
+		x.harnessDoc = content
+		restored = true
+		if x.savedSince {
+			x.lab("restore-loaded-content-after-save")
+			x.out.nontriv = true
+		}
+	} else if s.File != nil {
+		content = s.File.bytes(kl)
+		if err := credx.WriteStore(x.path, content); err != nil {
+			x.out.violation = "HARNESS write: " + err.Error()
+			return class, true
+		}
+		x.harnessDoc = content
+	} else {
+		var err error
+		if content, err = os.ReadFile(x.path); err != nil {
+			x.out.violation = "HARNESS read: " + err.Error()
+			return class, true
+		}
+	}
+	want, _, derr := credx.DecodeStore(content, kl)
+	code, body := x.rig.Reload()
+	desc = fmt.Sprintf("reload(%q)", content)
+	if restored {
+		desc = fmt.Sprintf("restore-earlier-loaded-file+reload(%q)", content)
+	} else if s.File == nil {
+		desc = "reload(untouched file)"
+	}
+	x.history = append(x.history, fmt.Sprintf("%s->%d", desc, code))
+	switch {
+	case derr != nil && code >= 400:
+		class = "reload-rej"
+		x.lab("reload-invalid-rejected")
+	case derr == nil && accepted(code):
+		// A file whose bytes are exactly what the server last read or wrote is "unchanged": the
+		// reload must not alter anything — in particular it must not throw away an acknowledged
+		// change whose save is still cooling down (the three views are compared right after).
+		if bytes.Equal(content, x.syncBytes) {
+			class = "reload-unmodified-noop"
+			x.lab("reload-of-unmodified-file")
+			if x.pending {
+				x.lab("reload-of-unmodified-file-with-change-pending")
+				x.out.nontriv = true
+				if x.savedSince {
+					x.lab("reload-of-unmodified-file-with-change-pending-after-an-earlier-save")
+				}
+			}
+			return class, false
+		}
+		class = "reload-ok"
+		if !credx.SameUsers(want, x.model) {
+			x.lab("reload-edited")
+			x.out.nontriv = true
+			class = "reload-ok-changed"
+		}
+		x.model = want
+		x.syncBytes = content
+		x.loaded = append(x.loaded, content)
+		x.savedSince = false
+		if restored {
+			class = "restore-" + class
+		}
+	case derr != nil:
+		x.out.violation = x.failf("invalid-file-accepted", "%s answered %d but the file is invalid: %v", desc, code, derr)
+		return class, true
+	default:
+		x.out.violation = x.failf("valid-file-refused", "%s answered %d %q but the file is a valid store", desc, code, body)
+		return class, true
+	}
+	return class, false
 }
 
 // dupConsequence demonstrates what the accepted duplicate leads to: remove the second holder
@@ -650,11 +700,11 @@ var recSeq = ev.New("C08", "sequential-plans",
 	"rapid stateful plans: key size {16,32} x stores {tcp,udp,both}; initial store over 4 names x 4 keys; 1..12 steps of "+
 		"add/update/delete through the ssm handlers (names incl. empty, keys incl. wrong lengths), edit-file-then-POST reload-users "+
 		"(valid, duplicate-key, wrong-length, truncated, non-object, untouched), restore-an-earlier-loaded-document-byte-for-byte-then-reload "+
-		"(after the debounce save), save-then-restart; after every step a real client per "+
+		"(after the debounce save), change-then-at-once-reload-of-the-untouched-file (must be a no-op at every phase), save-then-restart; after every step a real client per "+
 		"universe key (+1 never-issued key) per transport, GET users, and (after the 5 s debounce on a fake clock) the decoded store "+
 		"file are compared with a name->key model. Non-trivial: an accepted delete or key rotation followed by a handshake with the old key, "+
 		"a duplicate-key attempt, or a reload that changes the set. Distinct key = key size + stores + op/outcome trace").
-	Require("deleted-key-probed", "rotated-key-probed", "dupkey-attempt", "reload-edited", "restore-loaded-content-after-save", "reload-invalid-rejected", "restart",
+	Require("deleted-key-probed", "rotated-key-probed", "dupkey-attempt", "reload-edited", "restore-loaded-content-after-save", "reload-of-unmodified-file-with-change-pending-after-an-earlier-save", "reload-invalid-rejected", "restart",
 		"mode/tcp", "mode/udp", "mode/both", "keylen/16", "keylen/32")
 
 func finishCase(rec *ev.Recorder, p plan, out *outcome) {
